@@ -40,6 +40,9 @@ EDITS = [
     ('pseudo-inverse: logical_not for ~', '_util.py', r'w\[~large\] = 0', 'w[np.logical_not(large)] = 0', ['C20']),
     ('lmnn: objective difference renamed (at-break clause binds by name -> undecided is fine)', 'lmnn.py', r'\bdelta_obj\b', 'improvement', ['C10']),
     ('sdml: intermediate for the loss matrix', 'sdml.py', r'loss_matrix = \(diff\.T \* y\)\.dot\(diff\)', 'signed = diff.T * y\n    loss_matrix = signed.dot(diff)', ['C13']),
+    ('sdml: loss matrix as similar-pair scatter minus dissimilar-pair scatter, in float64 (term not recognised -> undecided is fine)', 'sdml.py',
+     r'loss_matrix = \(diff\.T \* y\)\.dot\(diff\)',
+     'dpos = diff[y > 0].astype(float)\n    dneg = diff[y < 0].astype(float)\n    loss_matrix = dpos.T.dot(dpos) - dneg.T.dot(dneg)', ['C13']),
     ('nca: private loss method renamed (contract target gone -> undecided is fine)', 'nca.py', r'\b_loss_grad_lbfgs\b', '_objective_and_gradient', ['C10']),
     ('mmc: private solver method renamed (contract target gone -> undecided is fine)', 'mmc.py', r'\b_fit_full\b', '_fit_full_matrix', ['C14']),
     ('components_from_metric: else-less return', '_util.py', r'    return np\.diag\(np\.sqrt\(np\.maximum\(0, np\.diag\(metric\)\)\)\)\r?\n  else:\r?\n    try:',
